@@ -17,6 +17,7 @@ class ViewModel:
             pre = []
             if exits:
                 ret = exits_value(exits, lambda ex: ex.ret)
+                self._ctor_vg = vg
                 init = self._struct_fields(ret)
                 pre = list(exits[-1].pc)
             self.ctor_models.append({'fn': c, 'vg': vg, 'exits': exits, 'init': init, 'pre': pre})
@@ -52,6 +53,12 @@ class ViewModel:
                 # tuple-typed field: components are the places `f.0`, `f.1`, ..
                 for i, x in enumerate(t[1]):
                     out['%s%s.%d' % (prefix, k, i)] = x
+                continue
+            vg_ = getattr(self, '_ctor_vg', None)
+            if isinstance(t, tuple) and t and t[0] in ('seq_lit', 'seq_rep') and vg_ is not None and vg_.small_array_len(prefix + k) is not None:
+                # small fixed-size array of registers: components are the cells `f.0`, `f.1`, ..
+                for i in range(vg_.small_array_len(prefix + k)):
+                    out['%s%s.%d' % (prefix, k, i)] = t[1] if t[0] == 'seq_rep' else t[1][i]
                 continue
             out[prefix + k] = t
         return out
